@@ -185,6 +185,40 @@ Lemma call_put_positioned : forall H id cut s tm,
   call_prog H (CPutR id (reader_of_memsrc s cut) tm) = call_prog H (CPut id (cut (ms_data s)) tm).
 Proof. intros H id cut s tm E. cbn [call_prog]. rewrite reader_of_memsrc_honest by exact E. reflexivity. Qed.
 
+(* ---- histories: inner lookups and source positions leave no trace in the files, so every theorem
+   about histories (history_sound, put_get_persists) carries over to histories containing them *)
+Lemma xhop_erase : forall H o fs, xhop_ok o -> xhop_run H o fs = hop_run H (xerase o) fs.
+Proof.
+  intros H o fs Ho. destruct o as [o|id chunks tm c w|id s cut tm]; cbn [xhop_run xerase hop_run].
+  - reflexivity.
+  - rewrite put_cb_transparent by exact Ho. reflexivity.
+  - unfold put_src. rewrite reader_of_memsrc_honest by exact Ho. reflexivity.
+Qed.
+
+Theorem xhistory_erase : forall H ops fs,
+  Forall xhop_ok ops -> xhistory_run H ops fs = history_run H (map xerase ops) fs.
+Proof.
+  intros H ops. induction ops as [|o r IH]; intros fs Hok; [reflexivity|].
+  inversion Hok as [|? ? Ho Hr]; subst. unfold xhistory_run, history_run. cbn [fold_left map].
+  rewrite xhop_erase by exact Ho. apply IH, Hr.
+Qed.
+
+Lemma Forall_firstn : forall A (P : A -> Prop) n l, Forall P l -> Forall P (firstn n l).
+Proof.
+  intros A P n. induction n as [|n IH]; intros l Hl; [constructor|].
+  destruct l as [|x r]; [constructor|]. inversion Hl; subst. cbn. constructor; [assumption|apply IH; assumption].
+Qed.
+
+(* after every prefix of such a history the lookups of every id are sound *)
+Theorem xhistory_sound : forall H ops fs n id,
+  Forall xhop_ok ops ->
+  let s := xhistory_run H (firstn n ops) fs in bytes_ok H s id /\ file_ok s id.
+Proof.
+  intros H ops fs n id Hok. cbv zeta.
+  rewrite xhistory_erase by (apply Forall_firstn, Hok). rewrite <- firstn_map.
+  exact (history_sound H (map xerase ops) fs n id).
+Qed.
+
 (* ---- instances *)
 Local Open Scope Z_scope.
 
@@ -222,3 +256,15 @@ Example ex_put_src_reuse :
   concat (cut d1) = d1 /\ ms_pos (ms_after_put s) = 5%nat /\
   get_bytes toyH fs'' id1 = Found d1 (toyH d1) 5 7 /\ get_bytes toyH fs'' id2 = Found d1 (toyH d1) 5 9.
 Proof. vm_compute. auto. Qed.
+
+(* a history mixing a plain Put, damage, a Put whose source looks the damaged id up, and a Put from a
+   reader left at its end *)
+Example ex_xhistory :
+  let cut := fun d : bytes => [firstn 4 d; skipn 4 d] in
+  let ops := [XPlain (HPut id1 (honest_reader [d1]) 7); XPlain (HDamage (dmg_flip (DatP (toyH d1)) 1));
+              XPutCb id2 (cut d1) 9 (CGetBytes id1) (CbWrite 0);
+              XPutSrc id1 {| ms_data := d1; ms_pos := 5 |} cut 11] in
+  Forall xhop_ok ops /\
+  get_bytes toyH (xhistory_run toyH ops no_files) id1 = Found d1 (toyH d1) 5 11 /\
+  get_bytes toyH (xhistory_run toyH ops no_files) id2 = Found d1 (toyH d1) 5 9.
+Proof. split; [repeat constructor|vm_compute; auto]. Qed.
